@@ -82,6 +82,16 @@ class SDatetime(Sym):
         return f"SDatetime{self.fields}"
 
 
+class SymComp(Sym):
+    """(elt for x in <bytes of symbolic length>): the element at one generic index j, 0 <= j < n"""
+    __slots__ = ('j', 'n', 'elt')
+
+    def __init__(self, j, n, elt):
+        self.j = j
+        self.n = n
+        self.elt = elt
+
+
 class Guarded(Sym):
     """list element that is present only under a condition (result of if-conversion of an append-only branch)"""
     __slots__ = ('cond', 'value')
@@ -798,6 +808,8 @@ def m_isinstance(ex, v, t):
 
 def m_bytes(ex, x=b"", *a):
     if isinstance(x, SBytes):
+        if x.is_concrete():
+            return bytes(x.to_bytes())
         return x.copy(False)
     if isinstance(x, (list, tuple)):
         if any(is_sym(e) for e in x):
@@ -845,7 +857,26 @@ def m_bool(ex, x=False):
     return ex.truth_value(x)
 
 
+def _quant(ex, xs, is_any):
+    """any()/all() over a generator of symbolic length: a fresh boolean tied to the generic element (sound in both
+    directions for the one skolem index; nothing more is claimed)"""
+    p = ex.truth_value(xs.elt)
+    pt = bterm(p) if isinstance(p, (bool, SBool)) else None
+    b = ex.fresh_bool("any" if is_any else "all")
+    j, n = iterm(xs.j), iterm(xs.n)
+    inr = z3.And(j >= 0, j < n)
+    if is_any:
+        ex.fact(z3.Implies(b.t, z3.And(inr, pt)))
+        ex.fact(z3.Implies(z3.Not(b.t), z3.Implies(inr, z3.Not(pt))))
+    else:
+        ex.fact(z3.Implies(b.t, z3.Implies(inr, pt)))
+        ex.fact(z3.Implies(z3.Not(b.t), z3.And(inr, z3.Not(pt))))
+    return b
+
+
 def m_any(ex, xs):
+    if isinstance(xs, SymComp):
+        return _quant(ex, xs, True)
     terms = []
     for x in xs:
         t = ex.truth_value(x)
@@ -858,6 +889,8 @@ def m_any(ex, xs):
 
 
 def m_all(ex, xs):
+    if isinstance(xs, SymComp):
+        return _quant(ex, xs, False)
     terms = []
     for x in xs:
         t = ex.truth_value(x)
